@@ -1,3 +1,4 @@
+import os
 #!/usr/bin/env python3
 """Confirm a seeded change: with the patch the repo builds, the Go suite passes (except the known
 always-failing parser test) and the demonstration fails; without it the demonstration passes.
@@ -12,7 +13,8 @@ def sh(cmd, t=900):
     except subprocess.TimeoutExpired:
         return 124, "TIMEOUT"
 def reset():
-    sh("git -C %s checkout -q --detach $(git -C /repo rev-parse HEAD); git -C %s checkout -q -- .; git -C %s clean -fdq" % (SCR,SCR,SCR))
+    base = os.environ.get("SEED_BASE", "HEAD")  # seeds made before a later fix are confirmed at their base commit
+    sh("git -C %s checkout -q --detach $(git -C /repo rev-parse %s); git -C %s checkout -q -- .; git -C %s clean -fdq" % (SCR,base,SCR,SCR))
 case, sid = sys.argv[1], sys.argv[2]
 meta=json.load(open(case+"/meta.json"))
 demo=re.sub(r"/tmp/seed/wt_C\d+", SCR, meta["demo_cmd"])
@@ -50,7 +52,7 @@ if bad1 and not bad2:
     dst="/verif/seeded/"+sid
     if os.path.exists(dst): shutil.rmtree(dst)
     shutil.copytree(case, dst)
-    meta["confirmed"]={"built_and_suite_passed_with_patch": True, "demo_cmd_run": demo, "demo_with_patch_tail": out1[-600:], "demo_without_patch_tail": out2[-300:], "base_commit": subprocess.run("git -C /repo rev-parse --short HEAD",shell=True,capture_output=True,text=True).stdout.strip()}
+    meta["confirmed"]={"built_and_suite_passed_with_patch": True, "demo_cmd_run": demo, "demo_with_patch_tail": out1[-600:], "demo_without_patch_tail": out2[-300:], "base_commit": subprocess.run("git -C /repo rev-parse --short "+os.environ.get("SEED_BASE","HEAD"),shell=True,capture_output=True,text=True).stdout.strip()}
     json.dump(meta, open(dst+"/meta.json","w"), indent=1, ensure_ascii=False)
     print("kept as", dst)
 else:
